@@ -47,6 +47,7 @@ type World struct {
 	busyCount int
 
 	stdinText     Value
+	stdinPlan     Value
 	stdinPiped    Value
 	stdinTask     Value
 	stdinParseErr *Term
@@ -65,6 +66,8 @@ func NewWorld(ex *Exec) *World {
 		ergoPath + ".zzOutCount":   w.mOutCount,
 		ergoPath + ".zzLockStats":  w.mLockStats,
 		ergoPath + ".zzStdinTask":  w.mStdinTask,
+		ergoPath + ".zzStdinPlan":  func(ex *Exec, c *callCtx) Value { w.stdinPlan = c.args[0]; w.stdinParseErr = c.args[1].(BoolV).T; return nil },
+		ergoPath + ".ParsePlanInput": w.mParsePlanInput,
 		ergoPath + ".zzStdinText":  func(ex *Exec, c *callCtx) Value { w.stdinText = c.args[0]; return nil },
 		ergoPath + ".zzLastJSON":   w.mLastJSON,
 		ergoPath + ".zzStdinPiped": func(ex *Exec, c *callCtx) Value { w.stdinPiped = c.args[0]; return nil },
@@ -531,4 +534,14 @@ func (w *World) mCaptureEvidence(ex *Exec, c *callCtx) Value {
 		sv.F[i] = StrV{T: UF("evidence_"+strings.ToLower(st.Field(i).Name()), SInt, p)}
 	}
 	return TupleV{E: []Value{MergeV(bad, ZeroValue(rt), sv), MergeV(bad, ex.newError("evidence", nil), NilRef())}}
+}
+
+func (w *World) mParsePlanInput(ex *Exec, c *callCtx) Value {
+	if w.stdinPlan == nil {
+		panic(unsupported("ParsePlanInput without zzStdinPlan"))
+	}
+	vt := c.fn.Signature.Results().At(1).Type()
+	verr := ex.havoc("world.stdin.verr", vt, havocSpec{def: 0, by: map[string]int{}, constKeys: map[string]bool{}}, "")
+	perr := Or(w.stdinParseErr, Not(w.mStdinPiped(ex, c).(BoolV).T))
+	return TupleV{E: []Value{MergeV(perr, NilRef(), w.stdinPlan), MergeV(perr, verr, NilRef())}}
 }
